@@ -140,6 +140,9 @@ class Rotate(Domain):
             rotation_matrix, shifted_points.unsqueeze(-1)
         )
         shifted_points = rotated_points.squeeze(-1) + translate_values
+        # the rotated domain may depend on further coordinates of the points (e.g.
+        # those of a product partner): they are handed on as parameters
+        params = self._coordinates_outside_space(points).join(params)
         return self.domain._contains(Points(shifted_points, self.space), params)
 
     def sample_random_uniform(
